@@ -14,6 +14,12 @@ if _spec:
         def _fail():
             if _spec["mode"] == "die":
                 os._exit(77)
+            if _spec["mode"] == "die_locked":
+                # killed inside core.update_progress: the lock of the shared progress counter is never released
+                from bio2zarr import core as _core
+                if _core._progress_counter is not None:
+                    _core._progress_counter.get_lock().acquire()
+                os._exit(78)
             raise KeyError(f"injected failure in {_spec['target']} task {_spec['index']}")
 
         if _spec["target"] == "explode":
@@ -25,6 +31,13 @@ if _spec:
                     _fail()
                 return _orig(self, partition_index)
             _icf.IntermediateColumnarFormatWriter.process_partition = _pp
+        elif _spec["target"] == "scan":
+            from bio2zarr.vcf2zarr import icf as _icf
+            _orig = _icf.scan_vcf
+
+            def _sv(*a, _orig=_orig, **k):
+                _fail()
+            _icf.scan_vcf = _sv
         elif _spec["target"] == "encode":
             from bio2zarr.vcf2zarr import vcz as _vcz
             _orig = _vcz.VcfZarrWriter.encode_partition
